@@ -33,14 +33,14 @@ def parseTable (s : String) : Option (List (Bytes × Bytes)) :=
 
 def parseCase (line : String) : Option Case :=
   match splitWs line with
-  | ["tx", keys, ins, sigs, tam, t1, t2] => do
+  | ["tx", keys, ins, sigs, tam, t1, t2, _flow] => do
     let ks ← (splitList keys).mapM fun e =>
       match e.splitOn ":" with
       | [_, pk, pkh] => do pure ((← parseHex pk), (← parseHex pkh))
       | _ => none
     let ins ← (splitList ins).mapM fun e =>
       match e.splitOn ":" with
-      | [add, lock, value, redeem, label] => do
+      | [add, lock, value, redeem, label, _grp] => do
         let a ← (if add = "pkh" then some AddKind.pkh else if add = "sh" then some AddKind.sh else none)
         let spec : InSpec := ⟨a, (← parseHex lock), (← value.toInt?), (← parseHex redeem)⟩
         pure (InTok.mk spec label)
